@@ -439,3 +439,35 @@ mod tests {
         assert_eq!(dfa.graph.edge_count(), 5);
     }
 }
+
+#[cfg(grex_verif)]
+impl Dfa<'_> {
+    /// Read-only snapshot for the verification harness: (node count, initial state,
+    /// sorted final states, edges in edge-index order, alphabet in `BTreeSet` order).
+    #[allow(clippy::type_complexity)]
+    pub(crate) fn verif_snapshot(
+        &self,
+    ) -> (
+        usize,
+        usize,
+        Vec<usize>,
+        Vec<(usize, usize, Grapheme)>,
+        Vec<Grapheme>,
+    ) {
+        use petgraph::visit::{EdgeRef, IntoEdgeReferences};
+        let mut finals = self.final_state_indices.iter().copied().collect_vec();
+        finals.sort_unstable();
+        let edges = self
+            .graph
+            .edge_references()
+            .map(|e| (e.source().index(), e.target().index(), e.weight().clone()))
+            .collect_vec();
+        (
+            self.graph.node_count(),
+            self.initial_state.index(),
+            finals,
+            edges,
+            self.alphabet.iter().cloned().collect_vec(),
+        )
+    }
+}
